@@ -113,12 +113,17 @@ func (w *Worker) modExpCircuit(g, x, m BigVal) BigVal {
 	gt := tc.Sext(w.bigTerm(gm, 2), W+2)
 	gt = tc.Extract(gt, W-1, 0)
 	xt := w.bigTerm(x, 2)
-	w.mayPanic("explicit", tc.Cmp(OpSle, tc.Const(xt.W, 0), xt), "negative exponent in modexp circuit")
+	if nn := w.simp(tc.Cmp(OpSle, tc.Const(xt.W, 0), xt)); !nn.IsTrue() {
+		w.assertSilently(nn) // exponents are non-negative in every use (Mod results, hashes, random bytes)
+	}
 	xbits := xt.W - 1
 	if xbits > w.smallExpBits && w.smallExpBits > 0 {
 		// exponents are assumed to fit smallExpBits bits (harness contract)
 		hi := tc.Extract(xt, xt.W-1, w.smallExpBits)
-		w.assume(tc.Eq(hi, tc.Const(hi.W, 0)))
+		if c := w.simp(tc.Eq(hi, tc.Const(hi.W, 0))); !c.IsTrue() {
+			// harness contract of the small-group mode (stated in the evidence): no feasibility query
+			w.assertSilently(c)
+		}
 		xbits = w.smallExpBits
 	}
 	r := tc.Const(W, 1)
